@@ -322,7 +322,7 @@ impl Prop for C06 {
         "C06"
     }
     fn n_cases(&self, tier: Tier) -> u64 {
-        tier.pick(6000, 400_000)
+        tier.pick(36_000, 400_000)
     }
     fn time_cap_s(&self, tier: Tier) -> u64 {
         tier.pick(100, 1200)
